@@ -66,7 +66,13 @@ def body_lattice(env, i, j):
 
 
 _N = 25
-_add(Cond('resolve_dtype_lattice', [('i', 'int'), ('j', 'int')], body_lattice, ranges={'i': (0, _N - 1), 'j': (0, _N - 1)},
+# 64-bit ints meeting floats / complex, or int64 meeting uint64, resolve to float64 (NumPy promotion): finding F6,
+# isolated in resolve_dtype_lattice_int64_float so that every other pair is still decided
+F6_PAIR = '((i in (4, 8) and 9 <= j <= 13) or (j in (4, 8) and 9 <= i <= 13) or (i == 8 and 1 <= j <= 4) or (j == 8 and 1 <= i <= 4))'
+_add(Cond('resolve_dtype_lattice_int64_float', [('i', 'int'), ('j', 'int')], body_lattice, ranges={'i': (0, _N - 1), 'j': (0, _N - 1)}, pre=[F6_PAIR],
+        functions=['resolve_dtype'], bounds='the 28 ordered pairs in which a 64-bit integer dtype meets a float / complex dtype or the integer dtype of the other signedness',
+        route='resolve_dtype(d1, d2) holds both inputs', timeout=300))
+_add(Cond('resolve_dtype_lattice', [('i', 'int'), ('j', 'int')], body_lattice, ranges={'i': (0, _N - 1), 'j': (0, _N - 1)}, pre=['not ' + F6_PAIR],
         functions=['resolve_dtype'],
         bounds=f'all {_N}x{_N} ordered pairs of the dtype universe (bool; int/uint 8-64; float16-64; complex64/128; U1,U3,S1,S3; M8/m8 in D,s,Y; object), the pair chosen by two symbolic indices',
         route='resolve_dtype(d1, d2) holds both inputs, is symmetric and idempotent', timeout=600))
@@ -84,6 +90,7 @@ def body_lattice_iter(env, i, j, k):
 
 
 _add(Cond('resolve_dtype_iter_order', [('i', 'int'), ('j', 'int'), ('k', 'int')], body_lattice_iter, ranges={p: (0, 6) for p in 'ijk'},
+        pre=['not (1 in (i, j, k) and 2 in (i, j, k))'],   # int64 with float64: finding F6
         functions=['resolve_dtype_iter', 'resolve_dtype'],
         bounds='all ordered triples over {bool, int64, float64, U1, U3, M8[D], object}',
         route='resolve_dtype_iter: result holds all inputs and does not depend on fold order', timeout=300))
@@ -192,7 +199,7 @@ NO_TUPLE = {'series_assign', 'frame_assign', 'concat_resolved', 'from_records', 
 NO_NAN_LABEL = {'indexgo_append'}
 
 
-def mk_site(site, arr_name, tier='quick'):
+def mk_site(site, arr_name, tier='quick', bigint_only=False):
     cells, dt = ARRAYS[arr_name]
 
     def body(env, kind, v, b):
@@ -213,7 +220,14 @@ def mk_site(site, arr_name, tier='quick'):
         got, ref_fn = SITES[site](env, arr, elem)
         ref_cells = [env.obs(c) for c in cells]
         return got, ref_fn(ref_cells, ref_elem)
-    return Cond(f'site_{site}_{arr_name}', [('kind', 'int'), ('v', 'int'), ('b', 'bool')], body, ranges={'kind': (0, len(ELEM_KINDS) - 1), 'v': (-(2 ** 53), 2 ** 53)},
+    f6 = arr_name == 'float64' or site == 'fillna'
+    pre = []
+    if f6 and not bigint_only:
+        pre = ['kind != 2']
+    if bigint_only:
+        pre = ['kind == 2']
+    return Cond(f'site_{site}_{arr_name}' + ('_bigint' if bigint_only else ''), [('kind', 'int'), ('v', 'int'), ('b', 'bool')], body, pre=pre,
+            ranges={'kind': (0, len(ELEM_KINDS) - 1), 'v': (-(2 ** 53), 2 ** 53)},
             functions=[],
             bounds=f'existing array dtype {dt} ({cells}); supplied element kind symbolic over {ELEM_KINDS} (int value symbolic within +-2**53, big int = 2**60+1, str = "wxyz" longer than the array width)',
             route=f'{site}: every cell read back equals (value and type) what was supplied', tier=tier, timeout=200)
@@ -225,6 +239,8 @@ QUICK_SITES = [('reindex', 'int64'), ('reindex', 'U1'), ('reindex', 'bool'), ('s
                ('fillna', 'int64')]
 for _s, _a in QUICK_SITES:
     _add(mk_site(_s, _a))
+_add(mk_site('shift', 'float64', bigint_only=True))
+_add(mk_site('fillna', 'int64', bigint_only=True))
 for _s in SITES:
     for _a in ARRAYS:
         c = mk_site(_s, _a, tier='thorough')
